@@ -44,6 +44,8 @@ class Harness:
         return self.tier == "canary"
 
     def in_tier(self, tier):
+        if self.tier == "off":
+            return False
         if tier == "quick":
             return self.tier == "quick"
         return True
